@@ -3,16 +3,19 @@ use std::sync::Arc;
 
 pub mod c01;
 pub mod c02;
+pub mod c03;
 pub mod c04;
 pub mod c05;
 pub mod c06;
 pub mod c07;
 pub mod c08;
 pub mod c09;
+pub mod c10;
 pub mod c11;
 pub mod c12;
 pub mod c13;
 pub mod c14;
+pub mod c15;
 pub mod c16;
 pub mod c17;
 pub mod c18;
@@ -23,16 +26,19 @@ pub fn all() -> Vec<Arc<dyn Prop>> {
     vec![
         Arc::new(c01::C01),
         Arc::new(c02::C02),
+        Arc::new(c03::C03),
         Arc::new(c04::C04),
         Arc::new(c05::C05),
         Arc::new(c06::C06),
         Arc::new(c07::C07),
         Arc::new(c08::C08),
         Arc::new(c09::C09),
+        Arc::new(c10::C10),
         Arc::new(c11::C11),
         Arc::new(c12::C12),
         Arc::new(c13::C13),
         Arc::new(c14::C14),
+        Arc::new(c15::C15),
         Arc::new(c16::C16),
         Arc::new(c17::C17),
         Arc::new(c18::C18),
